@@ -48,7 +48,7 @@ theorem monitor_accepts_generic (v : Visitor α) (t : Tree α) (r : Result) (h :
 innermost open Enter); for a visitor that never cancels and a walk that returns nil it is a complete Dyck word. -/
 theorem enter_exit_nested (v : Visitor α) (t : Tree α) :
     (nest [] (generic v t).log).isSome ∧
-    ((∀ h, v h ≠ .done ∧ v h ≠ .error) → (generic v t).ret = some .ok → nest [] (generic v t).log = some []) := by
+    ((∀ h, (v h).stop = none) → (generic v t).ret = some .ok → nest [] (generic v t).log = some []) := by
   obtain ⟨r, m, hr, hm, _, hok⟩ := generic_accepted v t
   have hn : nest [] (generic v t).log = some m.opened := replay_nest v [] _ _ _ hm
   refine ⟨by rw [hn]; rfl, ?_⟩
@@ -77,7 +77,7 @@ several callbacks of the same node — a walk that is never cancelled and return
 branch order and exactly once, every node that is not below a node consumed in its Enter or cut off by a Consume
 in a Visit: the replay against the branch tree ends with no open node and no branch of any visited node left.
 A Consume issued in an Exit callback prunes nothing. -/
-theorem consume_schedule_complete (v : Visitor α) (t : Tree α) (hv : ∀ h, v h ≠ .done ∧ v h ≠ .error)
+theorem consume_schedule_complete (v : Visitor α) (t : Tree α) (hv : ∀ h, (v h).stop = none)
     (hret : (generic v t).ret = some .ok) :
     ∃ m, treplay v [] (generic v t).log (TMon.init t) = some m ∧ m.stack = [⟨none, []⟩] ∧ m.must = none := by
   obtain ⟨r, m, hr, hm, hmust, hok⟩ := generic_taccepted v t
@@ -92,33 +92,52 @@ theorem consume_prunes_exactly_subtree (p : α → Bool) (t : Tree α) (hg : (t.
     (generic (byLabel p) t).ret = some .ok ∧ enters (generic (byLabel p) t).log = (t.prune p).labels :=
   generic_byLabel p t hg
 
-/-- `done_stops_immediately`: no event after the callback that called SetDone, and nil is returned -/
-theorem done_stops_immediately (v : Visitor α) (t : Tree α) (pre post : List (Ev α)) (e : Ev α)
-    (hlog : (generic v t).log = pre ++ e :: post) (ha : v (pre ++ [e]) = .done) :
+/-- `done_stops_immediately`: no event after the callback that called SetDone (and no SetError(non-nil)), and nil
+is returned -/
+theorem done_stops_immediately (v : Visitor α) (t : Tree α) (pre post : List (Ev α)) (e : Ev α) (c : Bool)
+    (hlog : (generic v t).log = pre ++ e :: post) (ha : v (pre ++ [e]) = .done c) :
     post = [] ∧ (generic v t).ret = some .ok := by
   obtain ⟨r, m, hr, hm, _, hok⟩ := generic_accepted v t
   rw [hlog] at hm
-  obtain ⟨hp, hs⟩ := stop_is_last v pre post e m hm (Or.inl ha)
+  obtain ⟨hp, hs⟩ := stop_is_last v pre post e m .done hm (by rw [ha]; rfl)
   refine ⟨hp, ?_⟩
-  rw [ha] at hs
   cases r with
   | ok => exact hr
   | visitorError => simp [okRes, hs] at hok
   | cursorError => simp [okRes, hs] at hok
 
-/-- `error_stops_immediately`: no event after the callback that called SetError, and the error is returned -/
-theorem error_stops_immediately (v : Visitor α) (t : Tree α) (pre post : List (Ev α)) (e : Ev α)
-    (hlog : (generic v t).log = pre ++ e :: post) (ha : v (pre ++ [e]) = .error) :
+/-- `error_stops_immediately`: no event after the callback that called SetError with a non-nil error, and the error
+is returned -/
+theorem error_stops_immediately (v : Visitor α) (t : Tree α) (pre post : List (Ev α)) (e : Ev α) (c : Bool)
+    (hlog : (generic v t).log = pre ++ e :: post) (ha : v (pre ++ [e]) = .error c) :
     post = [] ∧ (generic v t).ret = some .visitorError := by
   obtain ⟨r, m, hr, hm, _, hok⟩ := generic_accepted v t
   rw [hlog] at hm
-  obtain ⟨hp, hs⟩ := stop_is_last v pre post e m hm (Or.inr ha)
+  obtain ⟨hp, hs⟩ := stop_is_last v pre post e m .error hm (by rw [ha]; rfl)
   refine ⟨hp, ?_⟩
-  rw [ha] at hs
   cases r with
   | ok => simp [okRes, hs] at hok
   | visitorError => exact hr
   | cursorError => simp [okRes, hs] at hok
+
+omit [DecidableEq α] in
+/-- `handler_calls_exact`: executing a callback's handler calls one by one — Consume, SetDone, SetError with its
+`err != nil` guard, in any number and order — is exactly the action `actOf` summarises them to; every theorem about
+`generic v` for arbitrary `v` therefore covers every visitor given by its calls (`genericCalls`). -/
+theorem handler_calls_exact (h : Handler) (cs : List Call) : h.calls cs = h.apply (actOf cs) := calls_eq_apply h cs
+
+/-- `setError_nil_never_cancels`: a visitor that never calls SetDone and never passes a non-nil error to SetError —
+however often it calls `SetError(nil)`, e.g. forwarding a passing check — is never cancelled: if its walk returns nil
+it is complete (no open node, no branch of a visited node left, for any Consume schedule). -/
+theorem setError_nil_never_cancels (vc : CallVisitor α) (t : Tree α)
+    (hv : ∀ h, (vc h).contains .setDone = false ∧ (vc h).contains (.setError false) = false)
+    (hret : (genericCalls vc t).ret = some .ok) :
+    ∃ m, treplay (fun h => actOf (vc h)) [] (genericCalls vc t).log (TMon.init t) = some m ∧
+      m.stack = [⟨none, []⟩] ∧ m.must = none := by
+  apply consume_schedule_complete (fun h => actOf (vc h)) t _ hret
+  intro h
+  simp only [actOf, (hv h).1, (hv h).2, Bool.false_eq_true, ite_false]
+  split <;> rfl
 
 omit [DecidableEq α] in
 /-- `nil_branch_is_error`: a nil branch (outside consumed subtrees) is reported, not skipped: the walk returns the
@@ -183,6 +202,12 @@ check follows every callback, the done check every Enter/Visit, and after EVERY 
 read-and-cleared before the cursor is popped (a Consume issued in an Exit callback cannot leak to the parent) -/
 theorem generic_shape_inst : Dawgs.Generated.C11.genericSites = (1, 1, 3) ∧
     Dawgs.Generated.C11.genericFacts.all (·.2) = true := by decide
+
+/-- the shape of the handler methods `Handler.call` / `clearConsumed` transcribe: SetError does nothing for a nil error
+(its whole body is guarded by `err != nil`) and otherwise records the error and sets done; SetDone and Consume set
+one field; WasConsumed reads and clears the flag; Done and Error read their fields; SetErrorf goes through SetError -/
+theorem handler_shape_inst : Dawgs.Generated.C11.handlerFacts.length = 8 ∧
+    Dawgs.Generated.C11.handlerFacts.all (·.2) = true := by decide
 
 /-- `semanticSubset Generated.tables` -/
 theorem semanticSubset_inst : semanticSubset tables = true := by decide +kernel
@@ -309,11 +334,16 @@ example : (treeOf tables tables.structural sample).good = true ∧
 def tiny : Tree Nat := .node 0 [.node 1 [.node 2 []], .node 3 []]
 example : (generic (scripted 2 .consume) tiny).log =
     [.enter 0, .enter 1, .exit 1, .visit 0, .enter 3, .exit 3, .exit 0] := by decide
-example : (generic (scripted 4 .done) tiny).log = [.enter 0, .enter 1, .enter 2, .exit 2] ∧
-    (generic (scripted 4 .done) tiny).ret = some .ok := by decide
-example : (generic (scripted 3 .error) tiny).ret = some .visitorError := by decide
+example : (generic (scripted 4 (.done false)) tiny).log = [.enter 0, .enter 1, .enter 2, .exit 2] ∧
+    (generic (scripted 4 (.done false)) tiny).ret = some .ok := by decide
+example : (generic (scripted 3 (.error false)) tiny).ret = some .visitorError := by decide
 example : (generic (fun _ => Act.continue) (.node 0 [.node 1 [], .bad] : Tree Nat)).ret = some .cursorError := by decide
 example : (Tree.prune (fun n => n == 1) tiny).good = true := by decide
+/-- SetError(nil) in every callback, with a Consume in Enter(1): nothing is cancelled -/
+example : (genericCalls (fun h => if h.length == 2 then [.setError true, .consume] else [.setError true]) tiny).log =
+    [.enter 0, .enter 1, .exit 1, .visit 0, .enter 3, .exit 3, .exit 0] ∧
+    (genericCalls (fun h => if h.length == 2 then [.setError true, .consume] else [.setError true]) tiny).ret = some .ok := by
+  decide
 /-- Consume in Enter(1) and again in Exit(1): the sibling 3 is still walked -/
 example : (generic (fun h => if h.length == 2 || h.length == 3 then Act.consume else .continue) tiny).log =
     [.enter 0, .enter 1, .exit 1, .visit 0, .enter 3, .exit 3, .exit 0] := by decide
